@@ -14,11 +14,11 @@ PROFILE = {
     "C01": dict(mc=dict(quick=["mc_c01_quick", "ChannelGhost:mc_ghost"],
                         thorough=["mc_c01_quick", "ChannelGhost:mc_ghost", "mc_c01_thorough"]),
                 gen=dict(MaxDisc=1, MaxAdds=5, MaxFees=3, MaxLen=110),
-                n=dict(quick=70, thorough=700), shadow=1000000,
+                n=dict(quick=60, thorough=600), poor=dict(quick=10, thorough=100), shadow=1000000,
                 mc_timeout=dict(quick=600, thorough=3000)),
     "C02": dict(mc=dict(quick=["mc_c02_quick"], thorough=["mc_c02_quick", "mc_c02_thorough"]),
                 gen=dict(MaxDisc=2, MaxAdds=4, MaxFees=3, MaxLen=100),
-                n=dict(quick=60, thorough=500), shadow=1,
+                n=dict(quick=55, thorough=450), poor=dict(quick=5, thorough=50), shadow=1,
                 mc_timeout=dict(quick=600, thorough=3000)),
     "C03": dict(mc=dict(quick=["mc_c03_quick"], thorough=["mc_c03_quick", "mc_c03_thorough"]),
                 gen=dict(MaxDisc=6, MaxAdds=4, MaxFees=3, MaxLen=120),
@@ -130,9 +130,50 @@ def fixture_overlay(ck):
     src = src.replace(pat, pat + "\t\tThawHeight:              verifLeaseExpiry(chanType),\n")
     src += ("\n// verifLeaseExpiry gives lease fixtures a real lease expiry (injected by /verif through an overlay).\n"
             "func verifLeaseExpiry(t channeldb.ChannelType) uint32 {\n\tif t.HasLeaseExpiration() {\n\t\treturn 600\n\t}\n\n\treturn 0\n}\n")
+    # ... and the funding split can be made uneven: verifPoorShare > 0 gives the non-initiator (bob) that many
+    # satoshi and the initiator the rest (a fresh inbound channel: below reserve, possibly below a dust limit)
+    pats = [("\tchannelBal := channelCapacity / 2\n",
+             "\tchannelBal := channelCapacity / 2\n\taliceBal, bobBal := channelBal, channelBal\n"
+             "\tif verifPoorShare > 0 {\n\t\taliceBal, bobBal = channelCapacity-verifPoorShare, verifPoorShare\n\t}\n"),
+            ("\t\tchannelBal, channelBal, &aliceCfg, &bobCfg, aliceCommitPoint,\n",
+             "\t\taliceBal, bobBal, &aliceCfg, &bobCfg, aliceCommitPoint,\n"),
+            ("\t\tchannelBal - commitFee - anchorAmt,\n", "\t\taliceBal - commitFee - anchorAmt,\n"),
+            ("\tbobBalance := lnwire.NewMSatFromSatoshis(channelBal)\n",
+             "\tbobBalance := lnwire.NewMSatFromSatoshis(bobBal)\n")]
+    for a, b in pats:
+        if src.count(a) != 1:
+            raise Inconclusive("lnwallet/test_utils.go no longer has the shape the funding-split overlay expects: %r" % a)
+        src = src.replace(a, b)
+    if "channelBal" in src.replace("channelBal := channelCapacity / 2", "").replace("channelBal, channelBal\n", ""):
+        raise Inconclusive("lnwallet/test_utils.go uses channelBal in a place the funding-split overlay does not know")
+    src += ("\n// verifPoorShare: see /verif vlib/props/channel_common.py fixture_overlay.\n"
+            "var verifPoorShare btcutil.Amount\n\n"
+            "// VerifSetPoorShare sets the non-initiator's funding share (0 = even split).\n"
+            "func VerifSetPoorShare(sat int64) { verifPoorShare = btcutil.Amount(sat) }\n")
     dst = os.path.join(ck.out, "test_utils_lease.go")
     open(dst, "w").write(src)
     return {"lnwallet/test_utils.go": dst}
+
+
+POOR_SHARES = [150000, 700000, 1299000, 1300000, 5000000]   # msat: around both parties' dust limits (200 / 1300 sat)
+
+
+def poor_batch(ck, files, gen_consts, n, cfg="ChannelGen.cfg"):
+    """Extra behaviours with an uneven funding split (PoorShare): the non-opener starts with a balance around the
+    dust limits; copied next to the main batch (the Cfg record carries the share)."""
+    import shutil
+    d = os.path.dirname(files[0])
+    k = 0
+    per = max(1, n // len(POOR_SHARES))
+    for i, share in enumerate(POOR_SHARES):
+        c = dict(gen_consts)
+        c["PoorShare"] = share
+        c["MaxLen"] = gen_consts["MaxLen"] - 7 * i      # different lengths: different behaviours for the same seed
+        fs = ck.generate(SPEC, "ChannelGen", cfg, per, c["MaxLen"] + 10, constants=c, timeout=900, name="gen_poor%d" % i)
+        for f in fs:
+            shutil.copy(f, os.path.join(d, "b_%d.ndjson" % (800000 + k)))
+            k += 1
+    return k
 
 
 def run_channel(ck, prop, extra_overlay=None):
@@ -150,6 +191,8 @@ def run_channel(ck, prop, extra_overlay=None):
     g = prof["gen"]
     files = ck.generate(SPEC, "ChannelGen", prof.get("gen_cfg", "ChannelGen.cfg"), n, g["MaxLen"] + 10,
                         constants={k: v for k, v in g.items()}, timeout=1500)
+    if prof.get("poor"):
+        ck.cov["uneven_split_behaviours"] = poor_batch(ck, files, g, prof["poor"][tier], prof.get("gen_cfg", "ChannelGen.cfg"))
     if prof.get("directed"):
         import glob, shutil
         for i, f in enumerate(sorted(glob.glob(os.path.join(SPEC, prof["directed"], "*.ndjson")))):
